@@ -31,7 +31,8 @@ func VerifC04_IndexStores() {
 	verifDigestFor(idx.Index.FeatureFlags)
 	switch vChoose("store", 3) {
 	case 0:
-		ls, err := NewLocalIndexStore(vTempDir())
+		dir := vTempDir()
+		ls, err := NewLocalIndexStore(dir)
 		vAssert(err == nil, "local index store")
 		vAssert(ls.StoreIndex("a.caibx", idx) == nil, "LocalIndexStore.StoreIndex failed")
 		back, err := ls.GetIndex("a.caibx")
@@ -39,6 +40,16 @@ func VerifC04_IndexStores() {
 		if err == nil {
 			vCover("local-read-back")
 			verifSameIndex(idx, back, "local index store")
+		}
+		// a newer, shorter index stored under the same name replaces the file: its bytes are
+		// exactly the new index's encoding (other tools locate the table from the tail)
+		if n > 0 {
+			short := Index{Index: idx.Index, Chunks: idx.Chunks[:n-1]}
+			vAssert(ls.StoreIndex("a.caibx", short) == nil, "LocalIndexStore.StoreIndex failed on an existing name")
+			var want bytes.Buffer
+			short.WriteTo(&want)
+			got, rerr := ioutil.ReadFile(dir + "/a.caibx")
+			vAssert(rerr == nil && vEqBytes(got, want.Bytes()), "the file of a re-stored index is not the encoding of the new index (stale bytes of the old one?)")
 		}
 	case 1:
 		ls, _ := NewLocalIndexStore(vTempDir())
